@@ -1891,7 +1891,11 @@ pub fn sllv(
     // get operands
     let rd = get_register(detail.operands[0].reg())?.scalar();
     let rt = get_register(detail.operands[1].reg())?.expression();
-    let rs = get_register(detail.operands[2].reg())?.expression();
+    // only the low five bits of rs give the shift amount
+    let rs = Expr::and(
+        get_register(detail.operands[2].reg())?.expression(),
+        expr_const(0x1f, 32),
+    )?;
 
     let block_index = {
         let block = control_flow_graph.new_block()?;
@@ -2165,7 +2169,11 @@ pub fn srav(
     // get operands
     let rd = get_register(detail.operands[0].reg())?.scalar();
     let rt = get_register(detail.operands[1].reg())?.expression();
-    let rs = get_register(detail.operands[2].reg())?.expression();
+    // only the low five bits of rs give the shift amount
+    let rs = Expr::and(
+        get_register(detail.operands[2].reg())?.expression(),
+        expr_const(0x1f, 32),
+    )?;
 
     let block_index = {
         let block = control_flow_graph.new_block()?;
@@ -2215,7 +2223,11 @@ pub fn srlv(
     // get operands
     let rd = get_register(detail.operands[0].reg())?.scalar();
     let rt = get_register(detail.operands[1].reg())?.expression();
-    let rs = get_register(detail.operands[2].reg())?.expression();
+    // only the low five bits of rs give the shift amount
+    let rs = Expr::and(
+        get_register(detail.operands[2].reg())?.expression(),
+        expr_const(0x1f, 32),
+    )?;
 
     let block_index = {
         let block = control_flow_graph.new_block()?;
